@@ -546,7 +546,7 @@ def run_roundtrip(run, case: dict, engine: str, sample: bool = False) -> None:
 
 
 def engine_random(run, shard, thorough: bool) -> None:
-    n = 400000 if thorough else 7000
+    n = 150000 if thorough else 7000
     for i in range(n):
         if not mine(i, shard):
             continue
@@ -571,7 +571,7 @@ def sweep_case(seed: int, fmt: str, as_thumb: bool, j: int) -> dict:
 
 
 def engine_sweep(run, shard, thorough: bool) -> None:
-    reps = 60 if thorough else 4
+    reps = 40 if thorough else 4
     idx = 0
     for fmt in G.WRITABLE:
         for as_thumb in (False, True):
@@ -694,7 +694,7 @@ def run_handmade(run, case: dict, engine: str, sample: bool = False) -> None:
 
 
 def engine_handmade(run, shard, thorough: bool) -> None:
-    n = 80000 if thorough else 1500
+    n = 30000 if thorough else 1500
     for i in range(n):
         if mine(i, shard):
             run_handmade(run, gen_handmade(sub_rng(run.seed, 'handmade', i)), 'handmade', sample=i < 2)
